@@ -1,0 +1,25 @@
+//go:build verif
+
+package protocol
+
+// Contracts for the deductive verifier in /verif (govc); comments only.
+// frameStatus/frameLen are defined in /verif/specs/frame.gvs from the framing rule of
+// property C07: a length below the 4-byte header or above the configured maximum is an
+// error, a packet of exactly the maximum length is accepted.
+//
+//@ func TarsRequest
+//@   witness max = maxPackageLength
+//@   ensures [C07] result1 == frameStatus(rev, maxPackageLength) && result0 == frameLen(rev, maxPackageLength)
+//@   ensures [C05,C07] result1 == PackageFull ==> (4 <= result0 && result0 <= len(rev))
+//@   safety [C05,C07]
+//
+//@ func (*TarsProtocol).ParsePackage
+//@   witness max = maxPackageLength
+//@   ensures [C07] result1 == frameStatus(rev, maxPackageLength) && result0 == frameLen(rev, maxPackageLength)
+//@   ensures [C05,C07] result1 == PackageFull ==> (4 <= result0 && result0 <= len(rev))
+//@   safety [C05,C07]
+//
+//@ func SetMaxPackageLength
+//@   modifies maxPackageLength
+//@   ensures [C07] maxPackageLength == len
+//@   safety [C07]
